@@ -15,6 +15,6 @@ s = s.replace(old, new, 1)
 open(p, 'w').write(s)
 PY
 for c in "$@"; do
-  VERIF_REPO="$d" /verif/check "$c" 2>&1 | grep -E "VIOLATION|MACHINERY|KNOWN|^C[0-9]+ " | head -6
+  VERIF_REPO="$d" VERIF_EVIDENCE_DIR="$d/_evidence" /verif/check "$c" 2>  VERIF_REPO="$d" /verif/check "$c" 2>&11 | grep -E "VIOLATION|MACHINERY|KNOWN|^C[0-9]+ " | head -6
 done
 rm -rf "$d"
